@@ -220,6 +220,62 @@ fn check_decompile(table: &Table, mapfile: &str, times: &[i32], jumps: &[(usize,
     }
 }
 
+
+// ---------------------------------------------------------------------------------------------
+// decompile direction, family (r): instruction runs that the decompiler may fold into ONE statement (per-difficulty
+// copies of one instruction -> a difficulty switch), with every assignment of stored times to the run.  A folded
+// statement has one time, so folding instructions whose times differ loses a time.  Oracle: recompiling the printed
+// text reproduces every RawInstr (time included) bit for bit.
+
+const RUN_TILINGS: [&[u8]; 9] = [
+    &[0xF1, 0xFE], &[0xF3, 0xFC], &[0xF7, 0xF8],
+    &[0xF1, 0xF2, 0xFC], &[0xF1, 0xF6, 0xF8], &[0xF3, 0xF4, 0xF8],
+    &[0xF1, 0xF2, 0xF4, 0xF8],
+    &[0xF1, 0xF2, 0xF4],          // incomplete tiling
+    &[0xFF, 0xF1, 0xFE],          // unlabelled instruction first
+];
+const RUN_TIMES: [i32; 3] = [10, 15, 0];
+
+fn check_decompile_run(table: &Table, masks: &[u8], times: &[i32], same_vals: bool, tail_time: i32) -> (String, Vec<Failure>) {
+    let mapfile = format!("{}!difficulty_flags\n0 E-\n1 N-\n2 H-\n3 L-\n4 4+\n5 5+\n6 6+\n7 7+\n", table.mapfile_text(REGS));
+    let ms = table.opcode_of_name("mS");
+    let mut instrs: Vec<RawInstr> = masks.iter().zip(times).enumerate().map(|(i, (&m, &t))| RawInstr { time: t, opcode: ms, difficulty: m, args_blob: (if same_vals { 7 } else { 7 + i as i32 }).to_le_bytes().to_vec(), ..RawInstr::DEFAULTS }).collect();
+    instrs.push(RawInstr { time: tail_time, opcode: table.opcode_of_name("m0"), ..RawInstr::DEFAULTS });
+    let detail = |extra: serde_json::Value| json!({"family": "decompile-run", "masks": masks, "times": times, "same_vals": same_vals, "tail_time": tail_time, "info": extra});
+    let sigbase = format!("masks={:02x?} times={:?} tail={} same_vals={}", masks, times, tail_time, same_vals);
+    let hooks = make_language(&Pool { ints: 4, floats: 4 }, false);
+    let r = catch(|| with_truth(&mapfile, |truth| {
+        let options = truth::llir::DecompileOptions { blocks: false, ..Default::default() };
+        let block = tl::raise(truth, &hooks, &instrs, &options).map_err(|d| format!("raise failed: {d}"))?;
+        let diag = truth.get_captured_diagnostics().unwrap_or_default();
+        Ok::<_, String>((truth::fmt::stringify(&block), diag))
+    }));
+    let (text, diag) = match r {
+        Err(p) => return ("panic".into(), vec![Failure { signature: format!("C13:{}", p.signature()), detail: detail(json!({"panic": p.text})) }]),
+        Ok(Err(e)) => return ("raise-failed".into(), vec![Failure { signature: format!("C13:run-raise-failed:{sigbase}"), detail: detail(json!({"error": e})) }]),
+        Ok(Ok(x)) => x,
+    };
+    if !diag.is_empty() { return ("decompile-warned".into(), vec![]); }
+    let folded = text.matches("mS(").count() + text.matches(&format!("ins_{ms}(")).count() < masks.len();
+    let r = catch(|| with_truth(&mapfile, |truth| {
+        let block = front_end(truth, &text, true).map_err(|(s, d)| format!("reparse rejected at {s}: {d}"))?;
+        tl::validate_difficulty(truth, &hooks, &block)?;
+        let des = desugar(truth, &block).map_err(|d| format!("desugar: {d}"))?;
+        let (instrs2, _) = tl::lower(truth, &hooks, &des.0, false).map_err(|d| format!("lower: {d}"))?;
+        Ok::<_, String>(instrs2)
+    }));
+    match r {
+        Err(p) => ("panic".into(), vec![Failure { signature: format!("C13:{}", p.signature()), detail: detail(json!({"panic": p.text, "text": text})) }]),
+        Ok(Err(e)) => ("recompile-failed".into(), vec![Failure { signature: format!("C13:run-recompile-failed:{sigbase}"), detail: detail(json!({"error": e, "text": text})) }]),
+        Ok(Ok(instrs2)) => {
+            if instrs2 != instrs {
+                let only_times = instrs2.len() == instrs.len() && instrs2.iter().zip(&instrs).all(|(a, b)| a.opcode == b.opcode && a.args_blob == b.args_blob && a.difficulty == b.difficulty);
+                ("recompile-differs".into(), vec![Failure { signature: format!("C13:{}:{sigbase}", if only_times { "folded-run-loses-a-time" } else { "run-recompile-differs" }), detail: detail(json!({"text": text, "original": fmt_instrs(&instrs), "recompiled": fmt_instrs(&instrs2)})) }])
+            } else { (if folded { "run-folded-ok".into() } else { "run-kept-ok".into() }, vec![]) }
+        }
+    }
+}
+
 fn gen_compile_case(ch: &mut Chooser, n: usize, depth: u32) -> (String, Vec<Exp>, bool) {
     let mut marker = 0;
     let items = gen_items(ch, n, depth, &mut marker);
@@ -236,7 +292,7 @@ fn gen_compile_case(ch: &mut Chooser, n: usize, depth: u32) -> (String, Vec<Exp>
 }
 
 #[derive(Clone)]
-enum Work { Compile { body: String, expected: Vec<Exp>, nontrivial: bool, n: usize, depth: u32, choices: Vec<u32> }, Decompile { times: Vec<i32>, jumps: Vec<(usize, usize, u8)> } }
+enum Work { Compile { body: String, expected: Vec<Exp>, nontrivial: bool, n: usize, depth: u32, choices: Vec<u32> }, Decompile { times: Vec<i32>, jumps: Vec<(usize, usize, u8)> }, Run { masks: Vec<u8>, times: Vec<i32>, same: bool, tail: i32 } }
 
 pub fn run(tier: &str) -> Report {
     let mut rep = Report::new("C13", tier, "model_checking");
@@ -270,6 +326,19 @@ pub fn run(tier: &str) -> Report {
             }
         }
     }
+    // family (r): foldable runs x every assignment of stored times
+    let n_before_runs = work.len();
+    for masks in RUN_TILINGS {
+        let k = masks.len();
+        for code in 0..RUN_TIMES.len().pow(k as u32) {
+            let mut c = code; let mut times = vec![];
+            for _ in 0..k { times.push(RUN_TIMES[c % RUN_TIMES.len()]); c /= RUN_TIMES.len(); }
+            for same in [false, true] { for tail in [times[k - 1], 22] {
+                work.push(Work::Run { masks: masks.to_vec(), times: times.clone(), same, tail });
+            }}
+        }
+    }
+    let n_runs = work.len() - n_before_runs;
     rep.states = work.len() as u64;
     rep.transitions += (work.len() - n_compile) as u64;
     let deadline = rep.deadline();
@@ -280,12 +349,18 @@ pub fn run(tier: &str) -> Report {
             (c, f)
         },
         Work::Decompile { times, jumps } => check_decompile(&table, &mapfile, times, jumps),
+        Work::Run { masks, times, same, tail } => check_decompile_run(&table, masks, times, *same, *tail),
     });
     for (i, r) in results.into_iter().enumerate() {
         let Some((class, failures)) = r else { rep.cap_hit = Some("wall cap".into()); continue; };
         rep.evaluations += 1; rep.traces_validated += 1;
         match &work[i] {
             Work::Compile { nontrivial, body, .. } => { rep.outcome(&format!("compile:{class}")); if *nontrivial { rep.nontrivial += 1; } if i % 5003 == 0 { rep.sample(json!({"compile": body})); } },
+            Work::Run { masks, times, .. } => {
+                rep.outcome(&format!("decompile:{class}"));
+                if times.windows(2).any(|w| w[0] != w[1]) { rep.nontrivial += 1; }
+                if i % 501 == 0 { rep.sample(json!({"run_masks": masks, "stored_times": times})); }
+            },
             Work::Decompile { times, jumps } => {
                 rep.outcome(&format!("decompile:{class}"));
                 let distinct: BTreeSet<i32> = times.iter().copied().collect();
@@ -296,7 +371,7 @@ pub fn run(tier: &str) -> Report {
         rep.failures.extend(failures);
     }
     rep.exhaustive = true;
-    rep.bound_completed = format!("compile: <= {max_items} items, nesting <= {depth}, deviations <= {bound} ({n_compile} programs); decompile: every stored-time sequence of length <= {max_len} over {:?} with 0 or 1 jump (any position, any target, 3 time-arg modes)", STORED_TIMES);
+    rep.bound_completed = format!("compile: <= {max_items} items, nesting <= {depth}, deviations <= {bound} ({n_compile} programs); decompile: every stored-time sequence of length <= {max_len} over {:?} with 0 or 1 jump (any position, any target, 3 time-arg modes); {n_runs} foldable difficulty runs ({} mask tilings x every assignment of times from {:?} x same/different values x tail time)", STORED_TIMES, RUN_TILINGS.len(), RUN_TIMES);
     rep.rule = "compile: E-DFS over sequences of {abs label, rel label (incl. const-expr and i32::MAX deltas), marker, loop/if/times/free block}; decompile: full product of stored times; non-trivial = >= 2 label kinds / block present, or >= 2 distinct stored times or a jump".into();
     rep.assumptions = vec!["M3 label arithmetic (harness model) with 32-bit wrap".into(), "instruction meaning decoded by the harness's own table".into()];
     rep.explanation = "compile: RawInstr.time of every marker, loop back-jump (and its time argument), if-jump, times assignment and counting jump compared with M3; decompile: M3 applied to the printed text must reproduce every stored time, and recompiling must reproduce the RawInstrs bit for bit".into();
@@ -306,7 +381,11 @@ pub fn run(tier: &str) -> Report {
 pub fn replay(detail: &serde_json::Value) -> i32 {
     let table = Table::new(&TableCfg::FULL);
     let mapfile = table.mapfile_text(REGS);
-    let (class, failures) = if detail["family"] == "decompile" {
+    let (class, failures) = if detail["family"] == "decompile-run" {
+        let masks: Vec<u8> = detail["masks"].as_array().unwrap().iter().map(|v| v.as_u64().unwrap() as u8).collect();
+        let times: Vec<i32> = detail["times"].as_array().unwrap().iter().map(|v| v.as_i64().unwrap() as i32).collect();
+        check_decompile_run(&table, &masks, &times, detail["same_vals"].as_bool().unwrap_or(false), detail["tail_time"].as_i64().unwrap_or(0) as i32)
+    } else if detail["family"] == "decompile" {
         let times: Vec<i32> = detail["times"].as_array().unwrap().iter().map(|v| v.as_i64().unwrap() as i32).collect();
         let jumps: Vec<(usize, usize, u8)> = detail["jumps"].as_array().unwrap().iter().map(|j| (j[0].as_u64().unwrap() as usize, j[1].as_u64().unwrap() as usize, j[2].as_u64().unwrap() as u8)).collect();
         check_decompile(&table, &mapfile, &times, &jumps)
